@@ -78,7 +78,25 @@ pub fn exec_guarded(def: &CheckDef, s: &Script, st: &mut Stats) -> ExecOut {
             if loc.starts_with("src/") || m.starts_with("HARNESS") {
                 ExecOut::HarnessPanic(m)
             } else {
-                ExecOut::Viol(Violation { clause: format!("{}.no_panic", def.id), detail: m })
+                // the violation class of a panic is (file, message with numbers blanked): the shrinker must
+                // not morph one panic into another, and known findings must not depend on line numbers
+                let file = loc.rsplit(':').nth(1).unwrap_or(loc);
+                let file = file.rsplit("/src/").next().unwrap_or(file);
+                let msg = m.split(" @ ").next().unwrap_or("");
+                let mut kind = String::new();
+                let mut last_hash = false;
+                for ch in msg.chars().take(60) {
+                    if ch.is_ascii_digit() {
+                        if !last_hash {
+                            kind.push('#');
+                        }
+                        last_hash = true;
+                    } else {
+                        kind.push(ch);
+                        last_hash = false;
+                    }
+                }
+                ExecOut::Viol(Violation { clause: format!("{}.no_panic[{}: {}]", def.id, file, kind.trim()), detail: m })
             }
         }
     }
@@ -256,6 +274,59 @@ pub fn shrink(def: &CheckDef, s0: &Script, clause: &str) -> Script {
     best
 }
 
+
+/// Known findings handed over by the check script (VERIF_KNOWN = JSON array of
+/// {id, property, clause, predicate}); a violation matching one is recorded (with one witness replay
+/// per finding) and the batch continues, so that a known finding never hides unexplored runs.
+pub fn load_known() -> Vec<J> {
+    match std::env::var("VERIF_KNOWN") {
+        Ok(t) if !t.is_empty() => match json::parse(&t) {
+            Ok(J::Arr(a)) => a,
+            _ => Vec::new(),
+        },
+        _ => Vec::new(),
+    }
+}
+
+pub fn known_match<'a>(known: &'a [J], prop: &str, clause: &str, s: &Script) -> Option<&'a J> {
+    known.iter().find(|k| {
+        if k.get("property").and_then(|x| x.as_str()) != Some(prop) || k.get("clause").and_then(|x| x.as_str()) != Some(clause) {
+            return false;
+        }
+        if let Some(J::Obj(p)) = k.get("predicate") {
+            for (key, want) in p {
+                let have = s.c(key);
+                match want {
+                    J::Int(w) => {
+                        if have != *w {
+                            return false;
+                        }
+                    }
+                    J::Obj(_) => {
+                        if let Some(mn) = want.get("min").and_then(|x| x.as_i64()) {
+                            if have < mn {
+                                return false;
+                            }
+                        }
+                        if let Some(mx) = want.get("max").and_then(|x| x.as_i64()) {
+                            if have > mx {
+                                return false;
+                            }
+                        }
+                        if let Some(J::Arr(xs)) = want.get("in") {
+                            if !xs.iter().any(|x| x.as_i64() == Some(have)) {
+                                return false;
+                            }
+                        }
+                    }
+                    _ => return false,
+                }
+            }
+        }
+        true
+    })
+}
+
 // ---------------------------------------------------------------------------------------------
 // worker
 // ---------------------------------------------------------------------------------------------
@@ -302,6 +373,8 @@ pub fn worker(def: &CheckDef, a: &WorkerArgs) -> i32 {
     let mut fps: HashSet<u64> = HashSet::new();
     let mut blocks: Vec<(u64, u64)> = Vec::new();
     let mut viols: Vec<J> = Vec::new();
+    let known = load_known();
+    let mut known_hits: BTreeMap<String, (u64, String, String)> = BTreeMap::new();
     let mut samples: Vec<J> = Vec::new();
     let mut nruns = 0u64;
     let mut nontrivial = 0u64;
@@ -346,6 +419,22 @@ pub fn worker(def: &CheckDef, a: &WorkerArgs) -> i32 {
                         // (or will be) reported by the normal worker for this block
                         continue;
                     }
+                    if let Some(kf) = known_match(&known, def.id, &v.clause, &s) {
+                        let id = kf.get("id").and_then(|x| x.as_str()).unwrap_or("?").to_string();
+                        let e = known_hits.entry(id.clone()).or_insert((0, String::new(), String::new()));
+                        e.0 += 1;
+                        if e.1.is_empty() {
+                            let mut w = s.clone();
+                            w.clause = v.clause.clone();
+                            w.detail = v.detail.clone();
+                            let path = format!("{}/{}-s{}-i{}.json", replay_dir(), def.id, a.seed, i);
+                            let _ = std::fs::create_dir_all(replay_dir());
+                            let _ = std::fs::write(&path, w.to_json().pretty());
+                            e.1 = path;
+                            e.2 = v.clause.clone();
+                        }
+                        continue;
+                    }
                     let mut m = shrink(def, &s, &v.clause);
                     // re-execute the minimised script to record its own detail text
                     let mut scratch = Stats::default();
@@ -371,7 +460,7 @@ pub fn worker(def: &CheckDef, a: &WorkerArgs) -> i32 {
                     vj.set("path", J::s(&path));
                     vj.set("config", J::Obj(m.cfg.iter().map(|(k, v)| (k.clone(), J::Int(*v))).collect()));
                     viols.push(vj);
-                    if viols.len() >= 2 {
+                    if viols.len() >= std::env::var("VERIF_MAX_VIOL_PER_WORKER").ok().and_then(|x| x.parse().ok()).unwrap_or(2usize) {
                         break 'outer;
                     }
                 }
@@ -393,6 +482,22 @@ pub fn worker(def: &CheckDef, a: &WorkerArgs) -> i32 {
     r.set("stats", J::from_map(&stats.m));
     r.set("blocks", J::Arr(blocks.iter().map(|(j, h)| J::Arr(vec![J::Int(*j as i64), J::Str(format!("{:016x}", h))])).collect()));
     r.set("viols", J::Arr(viols));
+    r.set(
+        "known",
+        J::Arr(
+            known_hits
+                .iter()
+                .map(|(id, (n, path, clause))| {
+                    let mut o = J::obj();
+                    o.set("id", J::s(id));
+                    o.set("count", J::Int(*n as i64));
+                    o.set("path", J::s(path));
+                    o.set("clause", J::s(clause));
+                    o
+                })
+                .collect(),
+        ),
+    );
     r.set("samples", J::Arr(samples));
     if let Some(e) = &harness_err {
         r.set("harness_error", J::s(e));
@@ -540,6 +645,7 @@ fn careful(exe: &str, def: &CheckDef, tier: Tier, seed: u64, total: u64, b: u64,
 pub struct BatchResult {
     pub evidence: J,
     pub violations: Vec<J>,
+    pub known: Vec<J>,
     pub harness_error: Option<String>,
 }
 
@@ -641,6 +747,7 @@ pub fn run_batch(def: &CheckDef, tier: Tier, seed: u64) -> BatchResult {
     let mut fps: HashSet<u64> = HashSet::new();
     let mut blocks: Vec<(u64, String)> = Vec::new();
     let mut viols: Vec<J> = Vec::new();
+    let mut known_all: BTreeMap<String, (u64, String, String)> = BTreeMap::new();
     let mut samples: Vec<J> = Vec::new();
     let mut nruns = 0u64;
     let mut nontrivial = 0u64;
@@ -674,6 +781,17 @@ pub fn run_batch(def: &CheckDef, tier: Tier, seed: u64) -> BatchResult {
                         }
                         if let Some(J::Arr(a)) = j.get("viols") {
                             viols.extend(a.iter().cloned());
+                        }
+                        if let Some(J::Arr(a)) = j.get("known") {
+                            for kx in a {
+                                let id = kx.get("id").and_then(|x| x.as_str()).unwrap_or("?").to_string();
+                                let e = known_all.entry(id).or_insert((0, String::new(), String::new()));
+                                e.0 += kx.get("count").and_then(|x| x.as_i64()).unwrap_or(0) as u64;
+                                if e.1.is_empty() {
+                                    e.1 = kx.get("path").and_then(|x| x.as_str()).unwrap_or("").to_string();
+                                    e.2 = kx.get("clause").and_then(|x| x.as_str()).unwrap_or("").to_string();
+                                }
+                            }
                         }
                         if let Some(J::Arr(a)) = j.get("samples") {
                             for s in a {
@@ -751,5 +869,16 @@ pub fn run_batch(def: &CheckDef, tier: Tier, seed: u64) -> BatchResult {
     ev.set("assumptions", J::Arr(def.assumptions.iter().map(|a| J::s(a)).collect()));
     ev.set("wall_s", J::Num((wall * 1000.0).round() / 1000.0));
     ev.set("violations", J::Int(viols.len() as i64));
-    BatchResult { evidence: ev, violations: viols, harness_error }
+    let known_v: Vec<J> = known_all
+        .iter()
+        .map(|(id, (n, path, clause))| {
+            let mut o = J::obj();
+            o.set("id", J::s(id));
+            o.set("count", J::Int(*n as i64));
+            o.set("path", J::s(path));
+            o.set("clause", J::s(clause));
+            o
+        })
+        .collect();
+    BatchResult { evidence: ev, violations: viols, known: known_v, harness_error }
 }
